@@ -8,10 +8,13 @@ META = {
         "text": "Lean 4 theorems over the job-layer model M4, by induction over ALL sequences of client requests and tako callbacks: "
                 "counters equal per-state task counts and never underflow (c13_counters), job status follows the rule table and its assert "
                 "cannot fire (c13_status), a rejected submit changes nothing (c13_submit_reject_no_effect), auto ids continue after the maximum "
-                "(c13_auto_ids)" + CORR,
+                "(c13_auto_ids), a job is reported completed at most once and exactly when closed with all tasks terminal, never before "
+                "(c13_completed_once), and no completion report of a job lies before an accepted submit into it, so the listener of a submit "
+                "with wait/progress misses none (c13_wait)" + CORR,
         "design_ref": "DESIGN.md 7/C13",
         "note": "trusted: Lean kernel (axioms propext, Classical.choice, Quot.sound), the hand-written model M4, harness + hooks + driver; "
-                "not yet a theorem: completed-exactly-once and the submit+wait clause (listener registration after the journal-flush await)",
+                "that the real listener of a submit with wait is registered while the submit is processed is not a theorem: it is checked on "
+                "simulated runs with a slow journal flush through the real client_rpc_loop (defect F5 found this way, fixed in 6bae9eb)",
         "technique": "Lean 4 proof (inductive invariant over operation sequences) + differential correspondence check",
     },
     "C19": {
